@@ -21,9 +21,15 @@ type item struct {
 	block bool   // {% %} (true) or {{ }} (false)
 	dl    bool   // dash on the left delimiter ({%- / {{-)
 	dr    bool   // dash on the right delimiter (-%} / -}})
+	// comment: a {# ... #} comment: renders nothing, ends the literal text on both sides, is no block tag and
+	// carries no dash
+	comment bool
 }
 
 func (it item) src() string {
+	if it.comment {
+		return "{# c #}"
+	}
 	if it.tag == "" {
 		return it.text
 	}
@@ -44,7 +50,11 @@ func (it item) src() string {
 func normalize(items []item) []item {
 	var out []item
 	for _, it := range items {
-		if it.tag == "" && len(out) > 0 && out[len(out)-1].tag == "" {
+		if it.comment {
+			out = append(out, it)
+			continue
+		}
+		if it.tag == "" && len(out) > 0 && out[len(out)-1].tag == "" && !out[len(out)-1].comment {
 			out[len(out)-1].text += it.text
 			continue
 		}
@@ -62,7 +72,7 @@ func handStrip(items []item, trimBlocks, lstrip bool) []item {
 	out := make([]item, len(items))
 	copy(out, items)
 	for i := range out {
-		if out[i].tag != "" {
+		if out[i].tag != "" || out[i].comment {
 			out[i].dl, out[i].dr = false, false
 			continue
 		}
@@ -541,6 +551,26 @@ func run(r *eng.Runner) {
 			return !r.Stopped()
 		})
 	}
+	// comments between the whitespace and the construct: only the literal text directly next to a marker is affected
+	r.Group("comment-neighbours", "c15.doc", "W a W {# c #} W C W {# c #} W b W with W over 3 runs, every construct with dash subsets, all 4 option settings: a comment ends the adjacent literal text (the whitespace on its far side stays)")
+	{
+		w3 := []string{" ", "\n", " \t\n "}
+		for _, c := range cs {
+			enum.Tuples(len(w3), 4, func(wi []int) bool {
+				for mask := 0; mask < 1<<c.nd; mask++ {
+					if c.nd == 4 && mask != 0 && mask != 15 && mask != 5 && mask != 10 && mask != 1 && mask != 8 && (r.Quick() || mask%3 != 0) {
+						continue
+					}
+					var doc []item
+					doc = append(doc, item{text: "a" + w3[wi[0]]}, item{comment: true}, item{text: w3[wi[1]]})
+					doc = append(doc, c.items(flags(mask, c.nd), "\n ", " \n")...)
+					doc = append(doc, item{text: w3[wi[2]]}, item{comment: true}, item{text: w3[wi[3]] + "b"})
+					emitDoc(r, doc, "comments:"+c.name)
+				}
+				return !r.Stopped()
+			})
+		}
+	}
 	// options switched on on one template must not reach another template of the same set
 	r.Group("options-isolation", "c15.doc", "the one-construct documents (W over 5 runs, no dashes) rendered before and after TrimBlocks/LStripBlocks were switched on on ANOTHER compiled template of the same set, and compiled again afterwards")
 	for _, c := range cs {
@@ -578,7 +608,7 @@ func init() {
 			"Non-trivial: the document carries a marker or an option is on (docs) / the reference actually removes something (spaceless). Cases deduplicated by source+options.",
 		Assumptions: []string{
 			"a dash deletes the maximal run of space, tab, CR, LF of the adjacent literal text; TrimBlocks one LF that is the first byte after %}; LStripBlocks the trailing spaces/tabs before {% (variable tags are not block tags)",
-			"comments adjacent to trimming delimiters are outside the fragment",
+			"a comment ends the literal text on both of its sides and is neither a block tag nor a carrier of dash markers",
 		},
 		Run: run,
 	})
